@@ -129,7 +129,13 @@ def invoke(fn, names_, args, environment, pos):
     try:
         return fn.execute(args_, environment, pos)
     except CklRuntimeError as e:
-        e.stacktrace.append(getFuncallString(fn, args_) + " " + str(pos))
+        # rendering the arguments runs user code (an object's _str_ member),
+        # which must not replace the error that is being propagated
+        try:
+            call = getFuncallString(fn, args_)
+        except Exception:
+            call = str(fn.name) + "(...)"
+        e.stacktrace.append(call + " " + str(pos))
         raise
 
 
